@@ -35,6 +35,7 @@ def build_pool(rng, quick):
         for nm, bad in (("kty9", b"\xa2\x01\x09\x03\x26"), ("truncated", pol.pubkey[:-3]), ("empty-map", b"\xa0")):
             p2 = impl.AuthPolicy(pol.challenge, pol.rp_id, pol.origin, bad, pol.count, False)
             pool.append((f"auth/{kind}/badkey-{nm}", "auth", p2, a))
+    ok_built = {}
     # registration specs (incl. RP-supplied roots for the built-in-root formats: argument aliasing)
     for fmt in regsim.FORMATS:
         for variant in ("ok", "rp-only", "untrusted", "fault", "ok-later", "expired"):
@@ -50,11 +51,13 @@ def build_pool(rng, quick):
                     continue
                 s.roots_mode = "none"
             if variant in ("ok-later", "expired"):
-                # the very response of "ok" presented at another clock (inside / outside the certificates' validity): the verdict follows
-                # the clock of THIS call whatever an earlier call established
+                # the very response of "ok" (same bytes, same anchors) presented at another clock, inside / outside the certificates'
+                # validity: the verdict follows the clock of THIS call whatever an earlier call established
                 if fmt not in regsim.X5C_FORMATS or fmt == "android-safetynet":
                     continue
-                s.now = T0 + (3 * regsim.DAY if variant == "ok-later" else 400 * regsim.DAY)
+                pd_ok, reg_ok = ok_built[fmt]
+                pool.append((f"reg/{fmt}/{variant}", "reg", regrun.policy_of(dict(pd_ok, now=T0 + (3 * regsim.DAY if variant == "ok-later" else 400 * regsim.DAY))), reg_ok))
+                continue
             if variant == "fault":
                 regcat.c_challenge_other(s, rng)
             if fmt in ("packed", "tpm", "fido-u2f") and variant in ("ok", "ok-later", "expired"):
@@ -62,6 +65,8 @@ def build_pool(rng, quick):
             s.exp_origin = [s.origin, "https://second.example"]
             s.algs = [-7, -257, -8]
             pd, reg = regsim.build(s)
+            if variant == "ok":
+                ok_built[fmt] = (pd, reg)
             pool.append((f"reg/{fmt}/{variant}", "reg", regrun.policy_of(pd), reg))
     for j in range(3):
         pool.append((f"genreg/{j}", "genreg", None, None))
